@@ -1,7 +1,7 @@
 """SQLAlchemy side of the host: declarative models and their Tables.
 
 Author(id, name) 1-* Post(id, title, rating, author_id NULL) 1-* Comment(id, body,
-post_id, writer_id NULL, reviewer_id NULL).  ``Comment.writer -> Author`` is, on purpose, a relationship
+post_id, writer_id NULL, co_writer_id NULL).  ``Comment.writer -> Author`` is, on purpose, a relationship
 whose key differs from the related table's name.
 """
 from sqlalchemy import Column, ForeignKey, Integer, String
@@ -19,8 +19,8 @@ class Author(Base):
     # valid on two root models)
     comments = relationship("Comment", back_populates="writer",
                            foreign_keys="Comment.writer_id")
-    reviewed = relationship("Comment", back_populates="reviewer",
-                            foreign_keys="Comment.reviewer_id")
+    co_written = relationship("Comment", back_populates="co_writer",
+                            foreign_keys="Comment.co_writer_id")
 
 
 class Post(Base):
@@ -39,11 +39,11 @@ class Comment(Base):
     body = Column(String, nullable=False)
     post_id = Column(Integer, ForeignKey("post.id"), nullable=False)
     writer_id = Column(Integer, ForeignKey("author.id"), nullable=True)
-    reviewer_id = Column(Integer, ForeignKey("author.id"), nullable=True)
+    co_writer_id = Column(Integer, ForeignKey("author.id"), nullable=True)
     post = relationship("Post", back_populates="comments")
     writer = relationship("Author", back_populates="comments", foreign_keys=[writer_id])
     # a second relationship to the same target: hosts join it through an alias
-    reviewer = relationship("Author", back_populates="reviewed", foreign_keys=[reviewer_id])
+    co_writer = relationship("Author", back_populates="co_written", foreign_keys=[co_writer_id])
 
 
 MODELS = {"Author": Author, "Post": Post, "Comment": Comment}
